@@ -16,6 +16,7 @@ reaches the rules in the same shape:
   K7  a, b = x, y                 ->  a = x; b = y       (names only, no
                                       target read on the right-hand side)
   K8  a = b = CONST               ->  a = CONST; b = CONST
+  K11 k = c; for x in IT: BODY; k += 1  ->  for k, x in enumerate(IT, c)
   K10 for x in (a, b): BODY       ->  BODY[a]; BODY[b]  (names only, short
                                       straight-line body)
   K9  t = delayed(f); t(x)        ->  delayed(f)(x)     (t bound once and
@@ -208,9 +209,11 @@ class Canon(ast.NodeTransformer):
             if not (isinstance(st, ast.Assign) and len(st.targets) == 1
                     and isinstance(st.targets[0], ast.Name)
                     and isinstance(st.value, ast.Call)
-                    and ast.unparse(st.value.func).split(".")[-1]
-                    == "delayed" and len(st.value.args) == 1
-                    and not st.value.keywords):
+                    and ((ast.unparse(st.value.func).split(".")[-1]
+                          == "delayed" and len(st.value.args) == 1
+                          and not st.value.keywords)
+                         or ast.unparse(st.value.func).split(".")[-1]
+                         == "Parallel")):
                 continue
             name = st.targets[0].id
             stores = [n for n in ast.walk(fn) if isinstance(n, ast.Name)
@@ -276,8 +279,66 @@ class Canon(ast.NodeTransformer):
             return None
         return [out[n] for n in names]
 
-    def _loops_to_comps(self, body):
+    def _manual_counters(self, body):
+        """K11  k = c; for x in IT: BODY; k += 1   ->
+                for k, x in enumerate(IT, c): BODY
+        (k only incremented at the end of the body, no continue, not read
+        after the loop)"""
         out = list(body)
+        fn = self.cur_fn
+        i = 0
+        while i < len(out):
+            st = out[i]
+            if isinstance(st, ast.Assign) and len(st.targets) == 1 and \
+                    isinstance(st.targets[0], ast.Name) and isinstance(
+                        st.value, ast.Constant) and type(
+                            st.value.value) is int and fn is not None:
+                k = st.targets[0].id
+                j = i + 1
+                while j < len(out) and k not in _names(out[j]):
+                    j += 1
+                lp = out[j] if j < len(out) else None
+                if isinstance(lp, ast.For) and not lp.orelse and lp.body \
+                        and isinstance(lp.body[-1], ast.AugAssign) and \
+                        isinstance(lp.body[-1].target, ast.Name) and \
+                        lp.body[-1].target.id == k and isinstance(
+                            lp.body[-1].op, ast.Add) and isinstance(
+                                lp.body[-1].value, ast.Constant) and \
+                        lp.body[-1].value.value == 1 and \
+                        k not in _names(lp.iter) | _names(lp.target):
+                    inner = lp.body[:-1]
+                    stores = [n for s_ in inner for n in ast.walk(s_)
+                              if isinstance(n, ast.Name) and n.id == k
+                              and isinstance(n.ctx, (ast.Store, ast.Del))]
+                    conts = [n for s_ in inner for n in ast.walk(s_)
+                             if isinstance(n, ast.Continue)]
+                    in_loop = {id(n) for n in ast.walk(lp)}
+                    after = [n for n in ast.walk(fn)
+                             if isinstance(n, ast.Name) and n.id == k
+                             and id(n) not in in_loop and n is not
+                             st.targets[0]]
+                    if not stores and not conts and not after and inner:
+                        call = ast.Call(
+                            func=ast.Name(id="enumerate", ctx=ast.Load()),
+                            args=[lp.iter] + ([st.value] if
+                                              st.value.value != 0 else []),
+                            keywords=[])
+                        new = ast.For(
+                            target=ast.Tuple(
+                                elts=[ast.Name(id=k, ctx=ast.Store()),
+                                      lp.target], ctx=ast.Store()),
+                            iter=call, body=inner, orelse=[],
+                            type_comment=None)
+                        ast.copy_location(new, lp)
+                        ast.fix_missing_locations(new)
+                        out = out[:i] + out[i + 1:j] + [new] + out[j + 1:]
+                        self.applied["K11"] = self.applied.get("K11", 0) + 1
+                        continue
+            i += 1
+        return out
+
+    def _loops_to_comps(self, body):
+        out = self._manual_counters(list(body))
         i = 0
         while i < len(out):
             st = out[i]
